@@ -112,8 +112,23 @@ func genDeliveryPlan(rng *rand.Rand) ([]int, bool, string) {
 // drive reads from the decoder with the caller plan; it returns the bytes,
 // the terminating error and a protocol violation message, if any.
 func drivePFB(stream []byte, chunks []int, eofWithData bool, plan readPlan) (out []byte, err error, proto string, reads int) {
-	src := &mon.PlanReader{Data: stream, Chunks: chunks, EOFWithData: eofWithData}
+	return drivePFBStalls(stream, chunks, eofWithData, plan, 0)
+}
+
+// drivePFBStalls: the source answers `stalls` reads with (0, nil) in front of
+// every delivery.
+func drivePFBStalls(stream []byte, chunks []int, eofWithData bool, plan readPlan, stalls int) (out []byte, err error, proto string, reads int) {
+	return drivePFBNested(stream, chunks, eofWithData, plan, stalls, 1)
+}
+
+// drivePFBNested: `depth` decoders on top of each other (the text segments of
+// the outer stream carry a PFB stream themselves).
+func drivePFBNested(stream []byte, chunks []int, eofWithData bool, plan readPlan, stalls, depth int) (out []byte, err error, proto string, reads int) {
+	src := &mon.PlanReader{Data: stream, Chunks: chunks, EOFWithData: eofWithData, Stalls: stalls}
 	dec := pfb.Decode(src)
+	for i := 1; i < depth; i++ {
+		dec = pfb.Decode(dec)
+	}
 	for i := 0; i < 1<<22; i++ {
 		size := plan.sizes[i%len(plan.sizes)]
 		buf := make([]byte, size)
@@ -185,7 +200,38 @@ func runC14(r *rt.Runner) {
 			c.SetDetail(func() string {
 				return fmt.Sprintf("stream: %x\ncaller buffer sizes: %s\nunderlying delivery: %s", head2(stream, 400), plan.desc, ddesc)
 			})
-			out, err, proto, reads := drivePFB(stream, chunks, ewd, plan)
+			// one stream in six comes from a source that is polled before its data
+			// have arrived: reads answered with (0, nil), up to several hundred in a row
+			stalls := 0
+			if rng.IntN(6) == 0 {
+				stalls = []int{1, 2, 7, 50, 99, 100, 101, 128, 250, 1000}[rng.IntN(10)]
+				if stalls >= 50 && len(chunks) > 0 {
+					for i := range chunks {
+						chunks[i] += 200 // keep the number of deliveries, and with it the run time, small
+					}
+				}
+				ddesc += fmt.Sprintf(", %d reads answered with (0, nil) in front of every delivery", stalls)
+				c.Count("streams from a stalling source")
+			}
+			// one stream in eight is itself carried in the text segments of another
+			// PFB stream and read through two decoders, one on top of the other
+			depth := 1
+			if rng.IntN(8) == 0 && len(stream) > 0 {
+				var outer []pfbSeg
+				for rest := stream; len(rest) > 0; {
+					n := 1 + rng.IntN(len(rest))
+					if rng.IntN(3) == 0 {
+						n = 1 + rng.IntN(min(len(rest), 9))
+					}
+					outer = append(outer, pfbSeg{typ: 1, data: rest[:n]})
+					rest = rest[n:]
+				}
+				stream, _ = framePFB(outer, rng.IntN(2) == 0, nil)
+				depth = 2
+				ddesc += ", wrapped in the text segments of an outer stream (two decoders)"
+				c.Count("streams read through two nested decoders")
+			}
+			out, err, proto, reads := drivePFBNested(stream, chunks, ewd, plan, stalls, depth)
 			c.Runner().Count("decoder Read calls", int64(reads))
 			if proto != "" {
 				c.Violation("stream|short-read", proto, "")
